@@ -293,7 +293,7 @@ def history_cases(rnd, idx, tmpdir, nsteps=3):
 
 
 def gen_cases(tier, rnd, tmpdir):
-    n_valid, n_bad, n_hist = (80, 16, 6) if tier == 'quick' else (1600, 320, 60)
+    n_valid, n_bad, n_hist = (72, 14, 6) if tier == 'quick' else (1600, 320, 60)
     cases = [finding_case(tmpdir, 0), ties_case(tmpdir, 1, 1.0, None), ties_case(tmpdir, 2, 1e-6, 1e-6),
              ties_case(tmpdir, 3, 1e-9, 1e-3), cell_finding_case(tmpdir, 4)]
     for i in range(n_hist):          # histories first: all steps of one history run in one driver process
